@@ -814,6 +814,13 @@ class Mailbox:
                 )
                 return
             except asyncio.CancelledError:
+                # We are being shut down (the mailbox was deleted, the server
+                # is exiting). `shutdown()` releases the commands still in the
+                # queue; the one we had already taken off the queue is ours to
+                # release. It will find the mailbox `deleted` and give up.
+                #
+                if imap_cmd is not None and not imap_cmd.ready.is_set():
+                    imap_cmd.ready.set()
                 return
             except Exception as e:
                 # We ignore all other exceptions because otherwise the
